@@ -122,7 +122,41 @@ def run_cfg(ctx, p, cfg):
             ok, detail = q.check_forwarder(fl[0], "std::io::Write::flush")
             r.require(ok, "flush-forwards", fn=fl[0], detail=detail)
 
-    with ctx.rule("Z3", "seeding", cfg) as r:
+    rule_seeding(ctx, p, cfg, "Z3")
+
+    with ctx.rule("Z4", "what the policy sees", cfg) as r:
+        f = p.fn(SIZE_IS_PRE)
+        e = f.local_expr(0)
+        r.require(e == ("const", "bool", False), "size-trigger-is-post-processing", fn=f, detail="SizeTrigger::is_pre_process returns %s" % show(e))
+        ro = rolling.roles(p)
+        bs = rolling.branch_sites(p)
+        a = bs["fn"]
+        post = bs["post"]
+        if len(post["flush"]) == 1 and len(post["process"]) == 1:
+            fl = post["flush"][0]
+            reads = [(b, i) for (b, i, s) in rolling.len_reads(p, a) if b in bs["post_only"]]
+            r.require(bool(reads) and all(a.dominates(fl.block, b) and b != fl.block for b, i in reads), "len-read-after-flush", fn=a,
+                      detail="size read in bb%s after flush bb%d" % ([b for b, i in reads], fl.block))
+        else:
+            r.fail("post-branch-shape", fn=a, detail="post-processing branch does not have one flush and one process call")
+
+    rolling.rule_branch_order(ctx, p, cfg, "Z5")
+
+
+def _ds_bool(e):
+    """deep-strip inside a boolean expression so atoms compare equal to the flag"""
+    e = strip(e, calls=set())
+    if e[0] == "un":
+        return ("un", e[1], _ds_bool(e[2]))
+    if e[0] == "bin":
+        return ("bin", e[1], _ds_bool(e[2]), _ds_bool(e[3]))
+    if e[0] == "const":
+        return e
+    return deep_strip(e)
+
+
+def rule_seeding(ctx, p, cfg, rid="Z3"):
+    with ctx.rule(rid, "seeding", cfg) as r:
         ro = rolling.roles(p)
         g = ro["get_writer"]
         lw, lenf = ro["logwriter"], ro["len_field"]
@@ -188,32 +222,3 @@ def run_cfg(ctx, p, cfg):
         for c in md:
             r.require(common.result_is_checked(g, c), "metadata-error-propagated", fn=g, site=c.at, detail="metadata() failure is propagated")
 
-    with ctx.rule("Z4", "what the policy sees", cfg) as r:
-        f = p.fn(SIZE_IS_PRE)
-        e = f.local_expr(0)
-        r.require(e == ("const", "bool", False), "size-trigger-is-post-processing", fn=f, detail="SizeTrigger::is_pre_process returns %s" % show(e))
-        ro = rolling.roles(p)
-        bs = rolling.branch_sites(p)
-        a = bs["fn"]
-        post = bs["post"]
-        if len(post["flush"]) == 1 and len(post["process"]) == 1:
-            fl = post["flush"][0]
-            reads = [(b, i) for (b, i, s) in rolling.len_reads(p, a) if b in bs["post_only"]]
-            r.require(bool(reads) and all(a.dominates(fl.block, b) and b != fl.block for b, i in reads), "len-read-after-flush", fn=a,
-                      detail="size read in bb%s after flush bb%d" % ([b for b, i in reads], fl.block))
-        else:
-            r.fail("post-branch-shape", fn=a, detail="post-processing branch does not have one flush and one process call")
-
-    rolling.rule_branch_order(ctx, p, cfg, "Z5")
-
-
-def _ds_bool(e):
-    """deep-strip inside a boolean expression so atoms compare equal to the flag"""
-    e = strip(e, calls=set())
-    if e[0] == "un":
-        return ("un", e[1], _ds_bool(e[2]))
-    if e[0] == "bin":
-        return ("bin", e[1], _ds_bool(e[2]), _ds_bool(e[3]))
-    if e[0] == "const":
-        return e
-    return deep_strip(e)
